@@ -113,7 +113,7 @@ impl Session {
 
     pub fn tmp_file(&mut self, tag: &str) -> PathBuf {
         self.file_no += 1;
-        self.workdir.join(format!("{tag}-{}.sodg", self.file_no))
+        self.workdir.join(format!("{tag}-{}-{}.sodg", std::process::id(), self.file_no))
     }
 
     fn enter(&mut self, op: &Op) {
